@@ -61,8 +61,14 @@ func checkGenuine(w *world.W, c *world.Call, name string) {
 			tok, node, _, _ := world.Unstamp(inv.Vals[j])
 			if tok != c.Tok {
 				fail("C05/foreign-reply", key, "%s: call t%d (%s) was shown reply %d under node %d: it belongs to call t%d", name, c.Tok, c.Kind, inv.Vals[j], k, tok)
+				if strings.HasPrefix(c.Kind, "QuorumCall") { // the same observation is what C01 states for a quorum call's reply sets
+					fail("C01/foreign-reply", key, "%s: the quorum function of call t%d (%s) was shown reply %d under node %d: it is the reply to the request of call t%d, not to this call's own request", name, c.Tok, c.Kind, inv.Vals[j], k, tok)
+				}
 			} else if node != int(k) {
 				fail("C05/wrong-node", key, "%s: call t%d (%s) was shown the reply of node %d under node %d", name, c.Tok, c.Kind, node, k)
+				if strings.HasPrefix(c.Kind, "QuorumCall") {
+					fail("C01/wrong-node", key, "%s: the quorum function of call t%d (%s) was shown the reply of node %d under node %d", name, c.Tok, c.Kind, node, k)
+				}
 			}
 		}
 		if !world.IsStream(c.Kind) && len(inv.Keys) != prev+1 {
